@@ -20,6 +20,8 @@ def units(tier):
     t = 900 if tier == "thorough" else 300
     f = ["loky.reusable_executor:_ReusablePoolExecutor._resize"]
     return [
+        H("C10", "lokyverif.harness.c10_resize", "check_wait_job_completion", t, ["loky.reusable_executor:_ReusablePoolExecutor._wait_job_completion"],
+          "0..4 pending work items completing 1..2 per poll"),
         H("C10", M, "check_resize", t, f, "old/new 1..3, 0..old live workers, manager started or not"),
         H("C10", M, "check_resize_terminates", t, f, "old != new in 1..3, 0..old dead workers in the table, new workers die or not, pool breaks meanwhile or not"),
     ]
